@@ -1,6 +1,6 @@
 """C01 / C02 / C09 / C10: obligations on the real generated checkers, swept over node shapes (the induction step,
 children = opaque leaf classes = abstract predicates) and over enumerated composed shapes (bounded composition)."""
-import os, sys, time, multiprocessing as mp
+import os, sys, time, traceback, multiprocessing as mp
 from pyvc import report, REPO
 
 ANCHORS = ['beartype/_check/code/codemain.py', 'beartype/_check/cls/logic/logcls.py', 'beartype/_check/code/_pep/pep484/codepep484604union.py',
@@ -85,6 +85,9 @@ def main(prop, tier, seed):
                         shapes=nshape, by_kind=by_kind, depth='<=3 (quick) / <=4 (thorough)', seed=seed)]
     if prop == 'C09':
         errpath.safe(errpath.add_enumerators, rep, 'C09.errpath')
+    if prop == 'C02':
+        try: nested_reach(rep)
+        except Exception: rep.error('C02 nested_reach: ' + traceback.format_exc()[-1500:])
     if prop == 'C10':
         from props import errpath
         errpath.safe(errpath.add_finders, rep, 'C10.errpath')
@@ -92,3 +95,26 @@ def main(prop, tier, seed):
     rep.extra['explanation'] = ('each obligation is a z3 query over all objects x and all 32-bit draws r on the text captured from the real generator; '
                                 'node shapes = induction step, composed shapes = bounded composition check')
     return rep.finish()
+
+
+NESTED = [('list[list[int]]', "[[1, 'a'], [3, 4]]"), ('list[list[int]]', "[[1, 2], ['a', 4]]"), ('tuple[tuple[int, ...], ...]', "((1, 'a'), (3, 4))"),
+          ('list[dict[str, list[int]]]', "[{'k': [1, 'a']}, {'k': [3, 4]}]"), ('Sequence[list[int]]', "[[0, 0, 0, 'a'], [0] * 4, [0] * 4, [0] * 4]"),
+          ('list[list[int]]', "[['a', 2], [3, 4]]"), ('list[list[int]]', "[[1, 2, 3], [4, 'a', 6]]")]
+def nested_reach(rep):
+    """bounded (NOT counted as proved): 'for sequences under random sampling every index is reachable: if only item i violates, some draw rejects the
+    object' read for a sequence NESTED in a sequence: one violating innermost item, all draws 0..4095 forced through the real is_bearable"""
+    from pyvc import shapes, replaylib
+    from beartype import BeartypeConf
+    conf = BeartypeConf(); n = 0
+    for hint_src, obj_src in NESTED:
+        hint = shapes.ev(hint_src); rejected = None
+        for r in range(4096):
+            obj = eval(obj_src, dict(shapes.NS))
+            v, e = replaylib.real_verdict(obj, hint, conf, r)
+            if v == 'reject': rejected = r; break
+        n += 1
+        if rejected is None:
+            rep.add(f'C02.nested_reach[{hint_src}|{obj_src}]', 'refuted', backend='runtime-contract', where='exactly one innermost item violates the hint, yet no draw in 0..4095 rejects the object (all nesting levels index with the SAME draw)',
+                    solver_output='bounded run-time contract on the real API (not a proof)', replay=dict(reproduced=True, detail=f'is_bearable({obj_src}, {hint_src}) is True for every forced draw 0..4095'),
+                    replay_script=f"from pyvc import shapes, replaylib\nfrom beartype import BeartypeConf\nbad = [r for r in range(4096) if replaylib.real_verdict(eval({obj_src!r}, dict(shapes.NS)), shapes.ev({hint_src!r}), BeartypeConf(), r)[0] == 'reject']\nprint('draws that reject:', bad[:5]); sys.exit(0 if bad else 1)\n")
+    rep.bounded.append(dict(kind='reachability of a single violating item of a sequence nested in a sequence, all draws 0..4095 (bounded stand-in, NOT counted as proved)', scenarios=n))
